@@ -60,6 +60,14 @@ HIP_OUTPUTS = [
     'Recovery Factor (reservoir)',
     'Mass of Reservoir (fluid)',
     'Producible Electricity/Unit Area (reservoir)',
+    'Stored Heat (fluid)',
+    'Mass of Reservoir (rock)',
+    'Specific Enthalpy (reservoir)',
+    'Producible Heat/Unit Area (reservoir)',
+    'Producible Heat/Unit Volume (reservoir)',
+    'Producible Electricity/Unit Volume (reservoir)',
+    'Reservoir Volume (reservoir)',
+    'Recoverable Volume (recoverable fluid)',
 ]
 
 GEO_BASE = """Reservoir Model,4
@@ -161,4 +169,16 @@ GEO_OUTPUTS = [
     'Average Production Temperature',
     'Average Annual Total Electricity Generation',
     'Project NPV',
+    # labels checked (design time) to match exactly one line of the report of both synthetic base inputs
+    'Initial pumping power/net installed power',
+    'Project VIR=PI=PIR',
+    'Heat to Power Conversion Efficiency',
+    'Average Pumping Power',
+    'Drilling and completion costs per well',
+    'Average Reservoir Heat Extraction',
+    'Project IRR',
+    'Water loss rate',
+    'Bottom-hole temperature',
+    'Total operating and maintenance costs',
+    'Maximum Production Temperature',
 ]
